@@ -31,16 +31,25 @@ StateP == [default |-> default', pref |-> pref', depositors |-> depositors', vau
 (* Walks 1..NSys are not random: the full product  per-bucket decision inputs (XRD or not x preference x default
    rule x vault exists = 36)  x  the 4 guarded methods  x  badge status (none / named but unlisted / listed but unproven /
    listed and proven), each as a one-call history on a fresh account - independent of the seed.        *)
-NSys == 576
+NSys1 == 576
+(* Walks NSys1+1..NSys: the same 36 input combinations x the 2 batch methods x an EMPTY bucket of the resource, alone
+   and next to a non-empty bucket of another (unconfigured) resource, followed by a guarded single deposit of one unit of
+   the resource (under AllowExisting the outcome of the follow-up tells whether the empty bucket created a vault).   *)
+NSys == NSys1 + 144
 Sys == sd <= NSys
+Sys2 == sd > NSys1 /\ sd <= NSys
+NoBadge == [named |-> "none", proofs |-> {}, owner |-> FALSE]
 SysR == IF (sd - 1) % 2 = 0 THEN "A" ELSE "X"
 SysPref == <<"unset", "allowed", "disallowed">>[(((sd - 1) \div 2) % 3) + 1]
 SysDefault == DefSeq[(((sd - 1) \div 6) % 3) + 1]
 SysVault == IF ((sd - 1) \div 18) % 2 = 1 THEN {SysR} ELSE {}
+Sys2Op == IF ((sd - NSys1 - 1) \div 36) % 2 = 0 THEN "try_deposit_batch_or_refund" ELSE "try_deposit_batch_or_abort"
+Sys2Bs == IF ((sd - NSys1 - 1) \div 72) % 2 = 0 THEN <<[r |-> SysR, a |-> 0]>>
+          ELSE <<[r |-> SysR, a |-> 0], [r |-> IF SysR = "A" THEN "B" ELSE "A", a |-> 1]>>
 SysOp == <<"try_deposit_or_refund", "try_deposit_batch_or_refund", "try_deposit_or_abort", "try_deposit_batch_or_abort">>[(((sd - 1) \div 36) % 4) + 1]
 SysCaller == <<[named |-> "none", proofs |-> {}, owner |-> FALSE], [named |-> "b2", proofs |-> {"pN1"}, owner |-> FALSE],
                [named |-> "b1", proofs |-> {"pN1"}, owner |-> FALSE], [named |-> "b1", proofs |-> {"pF"}, owner |-> FALSE]>>[(((sd - 1) \div 144) % 4) + 1]
-Bound == IF Sys THEN 1 ELSE K
+Bound == IF Sys2 THEN 2 ELSE IF Sys THEN 1 ELSE K
 GInit ==
   /\ sd \in 1..Walks /\ step = 0
   /\ rs = Stream(sd)
@@ -89,7 +98,9 @@ Cell == [all |-> AllAllowed,
          \* the inputs of the per-bucket decision: <<preference, default rule, vault exists, is XRD>>
          inputs |-> {<<pref[LBs[i].r], default, LBs[i].r \in vault, LBs[i].r = XRD>> : i \in DOMAIN LBs}]
 GNext == /\ step < Bound
-         /\ (IF Sys THEN Call(SysOp, <<[r |-> SysR, a |-> 1]>>, SysCaller) ELSE StepAction(step + 1))
+         /\ (IF Sys2 THEN (IF step = 0 THEN Call(Sys2Op, Sys2Bs, NoBadge)
+                          ELSE Call("try_deposit_or_refund", <<[r |-> SysR, a |-> 1]>>, NoBadge))
+             ELSE IF Sys THEN Call(SysOp, <<[r |-> SysR, a |-> 1]>>, SysCaller) ELSE StepAction(step + 1))
          /\ step' = step + 1 /\ sd' = sd /\ rs' = rs
          /\ hist' = Append(hist, [op |-> last'.op, arg |-> last'.arg, bs |-> last'.bs, c |-> last'.c, class |-> last'.class,
                                   returned |-> last'.returned, events |-> last'.events, st |-> StateP, cell |-> Cell])
